@@ -17,6 +17,10 @@
 (*                                 interval contains the real one, which   *)
 (*                                 can only make the check more lenient)   *)
 (*   ins k ok / erase k n          sequential insert / erase               *)
+(*   ops ks ins rs                 a run of sequential inserts / erases    *)
+(*                                 folded into one event (op i inserts     *)
+(*                                 ks[i] iff ins[i]; rs[i] = it reported   *)
+(*                                 a new key / one removed key)            *)
 (*   scan size iter                size() and a full iteration begin..end  *)
 (*   probe q has find lb ub        contains/find/lower_bound/upper_bound   *)
 (*                                 for every probe key q[i] (<<>> = end()) *)
@@ -62,6 +66,13 @@ RetStep(t, k, ok) ==
 \* the set before the fill nor among the earlier keys of the fill
 FillOK(S, ks, rs) == \A i \in DOMAIN ks : rs[i] = (ks[i] \notin S /\ \A j \in 1..(i - 1) : ks[j] # ks[i])
 
+\* a run of sequential insert / erase operations: key k is present before op i iff the last earlier op of the run on k
+\* was an insert, or, if there is none, iff k was in the set before the run
+Max(S) == CHOOSE x \in S : \A y \in S : y <= x
+PresentBefore(S, e, i, k) == LET js == {j \in 1..(i - 1) : e.ks[j] = k} IN IF js = {} THEN k \in S ELSE e.ins[Max(js)]
+OpsOK(S, e) == \A i \in DOMAIN e.ks : e.rs[i] = (IF e.ins[i] THEN ~PresentBefore(S, e, i, e.ks[i]) ELSE PresentBefore(S, e, i, e.ks[i]))
+OpsResult(S, e) == {k \in S \cup Range(e.ks) : PresentBefore(S, e, Len(e.ks) + 1, k)}
+
 ProbeOK(e, S) ==
     \A i \in DOMAIN e.q :
           LET q == e.q[i] IN /\ e.has[i] = Contains(S, q)
@@ -80,6 +91,8 @@ TNext == /\ l <= Len(TraceData)
               [] Ev.e = "ret"    -> RetStep(Ev.t, Ev.k, Ev.ok)
               [] Ev.e = "ins"    -> Insert(Ev.k, Ev.ok)
               [] Ev.e = "erase"  -> Erase(Ev.k, Ev.n)
+              [] Ev.e = "ops"    -> /\ (Quiet /\ Len(Ev.ks) = Len(Ev.ins) /\ Len(Ev.ks) = Len(Ev.rs) /\ OpsOK(set, Ev)) = TRUE
+                                    /\ set' = OpsResult(set, Ev) /\ UNCHANGED pend
               [] Ev.e = "scan"   -> (Quiet /\ Ev.size = Size(set) /\ IsIterationOf(Ev.iter, set)) = TRUE /\ UNCHANGED avars
               [] Ev.e = "probe"  -> (Quiet /\ ProbeOK(Ev, set)) = TRUE /\ UNCHANGED avars
               [] Ev.e = "chunks" -> (Quiet /\ IsChunkingOf(Ev.cs, set)) = TRUE /\ UNCHANGED avars
